@@ -145,7 +145,7 @@ def newton_raphson(net, funct, mode, solver_vars, tols, pit_names, iter_name):
         vals_new = results[pos[::2]]
         vals_old = results[pos[1::2]]
         for var, val_new, val_old in zip(solver_vars, vals_new, vals_old):
-            dval = val_new - val_old
+            dval = np.asarray(val_new, dtype=np.float64) - np.asarray(val_old, dtype=np.float64)
             errors[var].append(np.max(np.abs(dval)) if len(dval) else 0)
         finalize_iteration(
             net, niter, residual_norm, nonlinear_method, errors=errors, tols=tols, tol_res=tol_res,
